@@ -570,7 +570,7 @@ func validateHeaderParameters(h map[any]any, protected bool) error {
 				if len(v) == 0 {
 					return errors.New("header parameter: type: require non-empty string")
 				}
-				if v[0] == ' ' || v[len(v)-1] == ' ' {
+				if strings.TrimSpace(v) != v {
 					return errors.New("header parameter: type: require no leading/trailing whitespace")
 				}
 				// Basic check that the content type is of form type/subtype.
@@ -590,7 +590,7 @@ func validateHeaderParameters(h map[any]any, protected bool) error {
 				if len(v) == 0 {
 					return errors.New("header parameter: content type: require non-empty string")
 				}
-				if v[0] == ' ' || v[len(v)-1] == ' ' {
+				if strings.TrimSpace(v) != v {
 					return errors.New("header parameter: content type: require no leading/trailing whitespace")
 				}
 				// Basic check that the content type is of form type/subtype.
